@@ -145,16 +145,46 @@ func callTargets(c *ssa.CallCommon) []string {
 // noteCalled maintains the per-path flags behind called("NAME"): true once a call whose target
 // matches NAME has been executed on the path.
 func (fc *FnCtx) noteCalled(c *ssa.CallCommon, st *State) {
-	if len(fc.calledNames) == 0 || fc.pureMode {
+	if (len(fc.calledNames) == 0 && len(fc.calledPairs) == 0) || fc.pureMode {
 		return
 	}
-	for _, tgt := range callTargets(c) {
-		for n := range fc.calledNames {
+	match := func(n string) bool {
+		for _, tgt := range callTargets(c) {
 			if n == tgt || strings.HasSuffix(tgt, "."+n) {
-				fc.heapSet(st, "called:"+n, fc.tb.True())
+				return true
 			}
 		}
+		return false
 	}
+	// calledAfter("X","Y") first: it looks at the flag of Y before this call is recorded
+	for p := range fc.calledPairs {
+		x, y := p[0], p[1]
+		if match(x) {
+			key := "calledafter:" + x + "|" + y
+			prev := fc.heapGet(st, key, "Bool")
+			fc.heapSet(st, key, fc.tb.Or(prev, fc.heapGet(st, "called:"+y, "Bool")))
+		}
+	}
+	for n := range fc.calledNames {
+		if match(n) {
+			fc.heapSet(st, "called:"+n, fc.tb.True())
+		}
+	}
+}
+
+// calledAfterFlag: value of calledAfter("X","Y"): some call of X was executed after a call of Y
+func (fc *FnCtx) calledAfterFlag(st *State, x, y string) *Term {
+	fc.calledFlag(st, y)
+	if fc.calledPairs == nil {
+		fc.calledPairs = map[[2]string]bool{}
+	}
+	if !fc.calledPairs[[2]string{x, y}] {
+		fc.calledPairs[[2]string{x, y}] = true
+		fc.newKey = true
+	}
+	key := "calledafter:" + x + "|" + y
+	fc.hyps = append(fc.hyps, fc.tb.Not(fc.tb.Const("h0!"+key, "Bool")))
+	return fc.heapGet(st, key, "Bool")
 }
 
 // calledFlag: value of called("NAME") in state st (false at function entry)
